@@ -139,6 +139,12 @@ func runC08(c *ShardCtx) {
 			func() []*peg.Rule {
 				return []*peg.Rule{{Name: "E", Expr: peg.Choice(peg.Action(0, peg.Seq(peg.Label("l", peg.Ref("E")), lit("b"), peg.Label("r", peg.Ref("N")), lit("c"))), peg.Ref("N"))}, N()}
 			},
+			// (an operand that records two errors per evaluation: other lengths of the error list when
+			// the leader takes its snapshot)
+			func() []*peg.Rule {
+				return []*peg.Rule{{Name: "E", Expr: peg.Choice(peg.Seq(peg.Ref("E"), lit("b"), peg.Ref("N"), lit("c")), peg.Seq(peg.Ref("E"), lit("b"), peg.Ref("N")), peg.Seq(peg.Ref("E"), lit("a"), peg.Ref("N"), lit("c")), peg.Ref("N"))},
+					{Name: "N", Expr: peg.Action(0, peg.Action(0, peg.Cls(false, false, "a", "b")))}}
+			},
 			func() []*peg.Rule {
 				return []*peg.Rule{{Name: "E", Expr: peg.Choice(peg.Seq(peg.Ref("F"), lit("c")), peg.Ref("N"))}, {Name: "F", Expr: peg.Seq(peg.Ref("E"), lit("b"), peg.Ref("N"))}, N()}
 			},
@@ -150,6 +156,7 @@ func runC08(c *ShardCtx) {
 			func() *peg.Expr { return peg.Ref("E") },
 		}
 		pickErr = func(i int, b *peg.Expr) bool { return true }
+		inputsABC := peg.Inputs([]string{"a", "b", "c"}, 5) // (three operands and two operators)
 		for _, e := range es {
 			for _, t := range tops {
 				if c.Expired("repeated-error family") {
